@@ -100,6 +100,89 @@ func lowSources(typ string, openerB bool, thorough bool) []Source {
 	return out
 }
 
+// scriptDustSources: 1 000 000 sat channels in which party X's *settled* balance
+// (the stored commitment balance the RBF state machine prices against the script
+// dust limits) sits on every target; an opener's gross share is the target plus
+// commit fee and anchors.
+func scriptDustSources(typ string, openerB bool, targets []int64, chanDust [2]int64) []Source {
+	var out []Source
+	opener := 0
+	if openerB {
+		opener = 1
+	}
+	const kw = 253
+	cr := credit(typ, kw)
+	for x := 0; x < 2; x++ {
+		for _, r := range targets {
+			g := r
+			if x == opener {
+				g += cr
+			}
+			grossA := g
+			if x == 1 {
+				grossA = lowCap - g
+			}
+			if grossA <= 0 || grossA > lowCap {
+				continue
+			}
+			out = append(out, Source{P: chanmc.Params{Type: typ, OpenerB: openerB, CapacitySat: lowCap, GrossA: grossA, ReserveSat: 1,
+				DustA: chanDust[0], DustB: chanDust[1], FeePerKw: kw}})
+		}
+	}
+	return out
+}
+
+var quickDustTypes = []string{"tweakless", "anchors", "taprootfinal"}
+
+// apiDustJobs: the api part on the script-dust sources, crossed with every
+// ordered pair of delivery scripts with different dust limits (all pairs in thorough).
+func apiDustJobs(thorough bool) []job {
+	var jobs []job
+	types := quickDustTypes
+	pairs := scriptPairs([]string{"p2wkh", "p2wsh", "p2tr", "p2sh", "p2pkh"}, true)
+	if thorough {
+		types = chanmc.AllTypes
+		pairs = scriptPairs(allScriptKinds, false)
+	}
+	for _, typ := range types {
+		for _, ob := range []bool{false, true} {
+			for si, src := range scriptDustSources(typ, ob, dustTargets(allScriptKinds), [2]int64{200, 1300}) {
+				src, si := src, si
+				jobs = append(jobs, job{name: "apidust " + src.Name(), part: "api", f: func(h *harness) {
+					h.withPair(src, func(p *pair) {
+						for payer := -1; payer < 2; payer++ {
+							fees := []int64{253}
+							if payer < 0 {
+								fees = []int64{0, 253}
+							}
+							if thorough {
+								fees = []int64{0, 253, 330}
+							}
+							for _, fee := range fees {
+								for pi, sc := range pairs {
+									// quick: every source takes a third of the pairs (the
+									// channel API prices dust by the channel dust limits, not by
+									// script; the full cross is in the rbf part and in thorough)
+									if !thorough && pi%3 != si%3 {
+										continue
+									}
+									if h.expired() {
+										return
+									}
+									c := ApiCase{Fee: fee, Payer: payer, SA: sc[0], SB: sc[1]}
+									v := safely("api", func() verdict { return runApi(p, c, nil) })
+									h.record(Replay{Part: "api", Src: &src, Api: &c}, v)
+								}
+							}
+						}
+					})
+				}})
+			}
+		}
+	}
+	return jobs
+}
+
 // apiFees: the fee lattice for one pair and payer.
 func apiFees(p *pair, payer int) []int64 {
 	g := p.gross[payer]
@@ -196,6 +279,7 @@ func plan(thorough bool, parts string) []job {
 		jobs = append(jobs, pureJobs(thorough)...)
 	}
 	if want("rbf") {
+		jobs = append(jobs, rbfDustJobs(thorough)...)
 		jobs = append(jobs, rbfJobs(thorough)...)
 	}
 	if want("api") {
@@ -217,6 +301,9 @@ func plan(thorough bool, parts string) []job {
 				}
 			}
 		}
+	}
+	if want("api") {
+		jobs = append(jobs, apiDustJobs(thorough)...)
 	}
 	if want("legacy") {
 		jobs = append(jobs, negJobs(thorough)...)
